@@ -174,9 +174,21 @@ def find_loop(fn, pred, what):
 def iter_is_role(loop, attr):
     """for <x> in self.<attr>  (optionally sliced / subscripted)"""
     it = loop.iter
+    if isinstance(it, ast.Call) and isinstance(it.func, ast.Name) and it.func.id == "reversed" and len(it.args) == 1:
+        it = it.args[0]
     while isinstance(it, ast.Subscript):
         it = it.value
     return isinstance(it, ast.Attribute) and it.attr == attr and isinstance(it.value, ast.Name) and it.value.id == "self"
+
+
+def loop_domain_rule(rep, rule, model, loop, construct, want, what):
+    """the loop must range over exactly the documented domain (every node once, in the documented direction)"""
+    got = ast.unparse(loop.iter).replace(" ", "")
+    ok = got in [w.replace(" ", "") for w in want]
+    if not ok:
+        rep.violation(rule, construct, "%s:%d" % (model.rel("system"), loop.lineno), "%s ranges over %s, expected %s: nodes are skipped or visited in the wrong order" % (what, ast.unparse(loop.iter), " or ".join(want)), "loop domain " + got)
+    rep.instance(rule, construct + " loop domain", "%s:%d" % (model.rel("system"), loop.lineno), ok)
+    return ok
 
 
 def enclosing_chain(fn, node):
@@ -363,6 +375,9 @@ def pass_wiring(model, rep, r, rule):
         def sval(lf, method=method, role=role):
             d = dispatch_of(lf, method, role)
             return {"receiver": d[2], "arguments": d[3]}
+        T = "self.%s" % r["TOPO"]
+        loop_domain_rule(rep, rule, model, loop, "system.System.%s" % r[role], [T] if role == "FWD" else [T + "[::-1]", "reversed(%s)" % T, "list(reversed(%s))" % T],
+                         "the %s pass" % ("forward" if role == "FWD" else "backward"))
         rows, ok = compare_rows(cl, sl, cval, sval, rep, rule, "system.System.%s" % r[role], "%s:%d" % (rel, loop.lineno), role + " pass wiring")
         # result stored at the receiver's own index
         for lf in cl:
@@ -502,6 +517,7 @@ def row_assembly(model, rep, r, rule, headers, construct="system.System.solve"):
         if not isinstance(lf.value, DictV):
             raise AnalysisError("reference row is not a dict")
         return {h: lf.value.get(h) for h in headers}
+    loop_domain_rule(rep, rule, model, an["row"], construct, ["self.%s" % r["TOPO"]], "the row loop of solve()")
     rows, ok = compare_rows(leaves, sl, cval, sval, rep, rule, construct, where, "row assembly")
     rep.instance(rule, "%s row body: %s" % (construct, ", ".join(headers)), where, ok, "%d leaves, %d rows" % (len(leaves), rows))
     rep.sample({"row_body_paths": len(leaves), "columns": headers})
@@ -596,6 +612,7 @@ def c04_propagation(model, rep):
     if init_name is None or model.own_method("System", init_name) is None:
         raise AnalysisError("solver initialiser not resolved")
     ifn, loop, cl, env = body_leaves(model, r, init_name, lambda l: isinstance(l, ast.For), "init loop")
+    loop_domain_rule(rep, "R3", model, loop, "system.System.%s" % init_name, ["self._get_nodes()"], "the solver initialisation")
     ps = [a.arg for a in ifn.args.args][1:]
     # the three vectors: targets of the tuple assignment from the vector constructor
     vec = None
@@ -881,6 +898,7 @@ def child_current_rule(model, rep, r, rule):
     sargs = {"self": Sym(("name", "self")), "node": env[params[0]], "i": env[params[1]], "v": env[params[2]], "state": env[params[3]],
              "c": Sym(("name", loop.target.id)), "io": env[acc]}
     sl = spec_leaves(model, r, "child_curr__body", sargs)
+    loop_domain_rule(rep, rule, model, loop, "system.System.%s" % r["CHILD_I"], ["self.%s[%s]" % (r["CHILDS"], params[0])], "the child-current sum")
     rows, ok = compare_rows(cl, sl, lambda lf: {"sum": lf.env[acc]}, lambda lf: {"sum": lf.value}, rep, rule,
                             "system.System.%s" % r["CHILD_I"], "%s:%d" % (rel, loop.lineno), "child-current sum")
     rep.instance(rule, "system.System.%s loop body" % r["CHILD_I"], "%s:%d" % (rel, loop.lineno), ok, "%d leaves, %d rows" % (len(cl), rows))
